@@ -216,6 +216,25 @@ theorem markers_each_ord (fmax : α) (andMode : Bool) (ths : List α) (rows : Li
     exact ⟨b :: bs, by simp [markers, hb, hbs], by simp [hb, hall]⟩
 end marker
 
+section thresholds
+variable {α : Type} [LE α] [DecidableLE α]
+
+/-- T4 (more thresholds than tested features): the extra thresholds are never read. -/
+theorem marker_extra_thresholds (fmax : α) (andMode : Bool) (ths extra : List α) (vals : List (Option α))
+    (h : vals.length ≤ ths.length) :
+    marker fmax andMode (ths ++ extra) vals = marker fmax andMode ths vals := by
+  simp only [marker, foldCmp_extra fmax andMode ths extra vals 0 andMode (by omega)]
+
+/-- What the code does with FEWER thresholds than tested features (outside the property's domain): as soon as an
+observation has a non-NaN value for the feature at position `len(thresholds_max)`, the call raises `IndexError`
+(the guard `len(thresholds_max) >= index` lets `index == len` through; the `sys.float_info.max` default is only
+reached for later positions, when that value is NaN). -/
+theorem marker_index_error (fmax : α) (andMode : Bool) (ths : List α) (vals : List (Option α)) (v : α)
+    (h : vals[ths.length]? = some (some v)) : marker fmax andMode ths vals = none := by
+  simp only [marker, foldCmp_index_error fmax andMode ths vals 0 andMode v (Nat.zero_le _) (by simpa using h),
+    Option.map_none]
+end thresholds
+
 /-- T4 (AND mode) on exact rationals (every finite double is one, and `<=` on finite doubles is exact) -/
 theorem marker_and (fmax : Rat) (ths : List Rat) (vals : List (Option Rat)) (h : vals.length ≤ ths.length) :
     ∃ b, marker fmax true ths vals = some b ∧
